@@ -15,7 +15,8 @@ SubSchemas(x) ==
                         THEN UNION {SubSchemas(Get(x.elems)[i]) : i \in {j \in DOMAIN Get(x.elems) : ~IsEll(Get(x.elems)[j])}}
                         ELSE {})
     [] x.t = "dict" -> IF IsSome(x.keys)
-                       THEN UNION {SubSchemas(Get(x.keys)[i].val) : i \in {j \in DOMAIN Get(x.keys) : ~IsEll(Get(x.keys)[j].key)}}
+                       THEN UNION {SubSchemas(Get(x.keys)[i].val) :
+                                   i \in {j \in DOMAIN Get(x.keys) : ~IsEll(Get(x.keys)[j].key) /\ ~IsEll(Get(x.keys)[j].val)}}
                        ELSE {}
     [] x.t = "any" -> IF IsSome(x.types) THEN UNION {SubSchemas(Get(x.types)[i]) : i \in DOMAIN Get(x.types)} ELSE {}
     [] x.t = "alias" -> SubSchemas(x.type)
@@ -42,6 +43,16 @@ SigEmptyAlphabet(x) == x.t = "str" /\ IsNone(x.value) /\ IsSome(x.alphabet) /\ G
 \* although no string conforms; nested in a container that is satisfiable without it (an empty
 \* typed list, an optional key, another alternative) the generator still emits its best effort
 SigContradictoryStr(x) == x.t = "str" /\ IsNone(x.value) /\ IsSome(x.substr) /\ ~Sat(x)
+
+\* a dict schema in which a proper key is mapped to the placeholder `...` instead of a schema:
+\* not a schema the DSL can declare, and nothing can be done with it
+\* ... or an element list with `...` between two elements
+Malformed(x) ==
+  \E y \in SubSchemas(x) :
+     \/ y.t = "dict" /\ IsSome(y.keys) /\
+          \E j \in DOMAIN Get(y.keys) : ~IsEll(Get(y.keys)[j].key) /\ IsEll(Get(y.keys)[j].val)
+     \/ y.t = "list" /\ IsSome(y.elems) /\
+          \E j \in DOMAIN Get(y.elems) : IsEll(Get(y.elems)[j]) /\ 1 < j /\ j < Len(Get(y.elems))
 
 \* an escaping exception is the recorded float-rounding finding or nothing
 FloatRoundKnown(x) == \E y \in SubSchemas(x) : y.t = "float" /\ IsSome(y.value) /\ IsSome(y.precision)
